@@ -359,9 +359,12 @@ def make_case(i):
             deep = rnd.random() < 0.5
             c.op('lib_copy', 'l0', int(deep))
             lh = c.handle('l') if False else None
-            steps.append({'tag': 'copy', 'deep': deep, 'graph': snapshot(M)})
+            present = M.names_in_use()
+            steps.append({'tag': 'copy', 'deep': deep, 'graph': snapshot(M), 'top': M.top_level(),
+                          'byname_present': any(k_ == 'name' and t_ in present for i_ in M.lib for k_, t_ in M.cells[i_]['refs'])})
             nlib = sum(1 for s_ in steps if s_['tag'] == 'copy')
             c.op('graph', 'l%d' % nlib)
+            c.op('top_level', 'l%d' % nlib)
     c.op('dump_lib', 'l0', 'end')
     c.meta = {'seed': sd, 'steps': steps, 'model': M, 'nontrivial': nontrivial, 'ncells0': ncells + nspare}
     return c
@@ -412,6 +415,17 @@ def judge(chk, c, evs):
                     chk.violation('C16/copy/shallow', 'shallow copy differs from its source', rp)
             if got['raws'] != want['raws']:
                 chk.violation('C16/copy/raws', 'copy lists raw cells %s, source %s' % (got['raws'], want['raws']), rp)
+            # top level of the copy: a shallow copy holds the same cell objects; in a deep copy every by-pointer reference still designates
+            # a cell of the source library, which is not a member of the copy, so no member is referenced by another member
+            tlc = next(it)
+            wt_c = set(q['top'][0]) if not q['deep'] else set(got['cells'])
+            if q.get('byname_present'):
+                chk.cov('top_level_not_judged_by_name_reference_to_present_cell')
+            elif set(tlc['cells']) != wt_c or set(tlc['raws']) != set(q['top'][1]):
+                chk.violation('C16/copy/top_level', '%s copy: top_level reports cells %s raws %s; no other cell of that library references %s %s' % (
+                    'deep' if q['deep'] else 'shallow', sorted(tlc['cells']), sorted(tlc['raws']), sorted(wt_c), sorted(q['top'][1])), rp)
+            else:
+                chk.cov('copy_top_level_judged')
             chk.cov('op_copy')
             continue
         got = graph_of(g)
